@@ -76,21 +76,26 @@ theorem rawNonneg_spec (B : List RawCell) (h : rawNonneg B = true) :
   exact h c hc x hx t ht o ho
 
 /-- both modes: whatever the INTERCONNECT loop sees stands in a block of the file -/
-theorem icEntries_origin (m : Mode) (B : List RawCell) (e : Entry) (h : e ∈ icEntries (parse m B)) :
-    ∃ c ∈ B, ∃ x ∈ c.delays.flatten, e = sanitize x := by
+theorem icEntries_origin (m : Mode) (B : List RawCell) (es : List Entry) (hes : icEntries (parse m B) = some es)
+    (e : Entry) (h : e ∈ es) : ∃ c ∈ B, ∃ x ∈ c.delays.flatten, e = sanitize x := by
   cases m with
   | merge =>
-    rw [icEntries_merge, mem_entriesOfKey] at h
-    obtain ⟨p, hp, _, he⟩ := h
-    obtain ⟨c, hc, rfl⟩ := List.mem_map.mp hp
-    obtain ⟨x, hx, rfl⟩ := List.mem_map.mp he
-    exact ⟨c, hc, x, hx, rfl⟩
+    rw [icEntries_merge] at hes
+    split at hes
+    · cases hes
+      rw [mem_entriesOfKey] at h
+      obtain ⟨p, hp, _, he⟩ := h
+      obtain ⟨c, hc, rfl⟩ := List.mem_map.mp hp
+      obtain ⟨x, hx, rfl⟩ := List.mem_map.mp he
+      exact ⟨c, hc, x, hx, rfl⟩
+    · cases hes
   | lastWins =>
-    rw [icEntries_lastWins] at h
+    rw [icEntries_lastWins] at hes
     cases hf : (B.map cell).reverse.find? (·.1 == none) with
-    | none => rw [hf] at h; cases h
+    | none => rw [hf] at hes; cases hes
     | some p =>
-      rw [hf] at h
+      rw [hf] at hes
+      cases hes
       have hp := List.mem_of_find?_eq_some hf
       rw [List.mem_reverse] at hp
       obtain ⟨c, hc, rfl⟩ := List.mem_map.mp hp
@@ -118,14 +123,15 @@ theorem iopaths_nonneg (m : Mode) (pinLine : PinTable) (B : List RawCell) (h : r
   exact ⟨norm_nonneg _ this.1, norm_nonneg _ this.2⟩
 
 theorem interconnects_nonneg (m : Mode) (icLine : IcTable) (B : List RawCell) (h : rawNonneg B = true)
-    (d l : Nat) (ip op : Bool) : 0 ≤ interconnects icLine (parse m B) d l ip op := by
+    (ic : Arr) (hic : interconnects icLine (parse m B) = some ic) (d l : Nat) (ip op : Bool) : 0 ≤ ic d l ip op := by
   have hs := rawNonneg_spec B h
-  unfold interconnects
+  unfold interconnects at hic
+  obtain ⟨es, hes, rfl⟩ := Option.map_eq_some_iff.mp hic
   apply applyAll_nonneg
   intro w hw
-  unfold icWrites at hw
+  unfold icWritesOf at hw
   obtain ⟨e, hmem, hwe⟩ := List.mem_filterMap.mp hw
-  obtain ⟨c, hc, x, hx, rfl⟩ := icEntries_origin m B e hmem
+  obtain ⟨c, hc, x, hx, rfl⟩ := icEntries_origin m B es hes e hmem
   have hnn := sanitize_nonneg x (hs c hc x hx)
   unfold icWrite at hwe
   simp only at hwe
@@ -135,24 +141,49 @@ theorem interconnects_nonneg (m : Mode) (icLine : IcTable) (B : List RawCell) (h
     obtain ⟨_, _, rfl⟩ := hwe
     exact ⟨norm_nonneg _ hnn.1, norm_nonneg _ hnn.2⟩
 
+/-- `sdfDelay` answers exactly when `interconnects` does, with the sum of the two arrays -/
+theorem sdfDelay_eq_some_iff (pinLine : PinTable) (icLine : IcTable) (df : DelayFile) (d : Nat)
+    (del : Nat → Bool → Bool → Int) :
+    sdfDelay pinLine icLine df d = some del ↔
+      ∃ ic, interconnects icLine df = some ic ∧ del = sumDelay pinLine df ic d := by
+  unfold sdfDelay
+  rw [Option.map_eq_some_iff]
+  constructor
+  · rintro ⟨ic, h, rfl⟩; exact ⟨ic, h, rfl⟩
+  · rintro ⟨ic, h, rfl⟩; exact ⟨ic, h, rfl⟩
+
+theorem sdfCfg_eq_some_iff (pinLine : PinTable) (icLine : IcTable) (df : DelayFile) (d : Nat) (cap : Nat → Nat)
+    (cfg : KV.Wave.WCfg) :
+    sdfCfg pinLine icLine df d cap = some cfg ↔
+      ∃ ic, interconnects icLine df = some ic ∧ cfg = ⟨sumDelay pinLine df ic d, cap⟩ := by
+  unfold sdfCfg sdfDelay
+  rw [Option.map_map, Option.map_eq_some_iff]
+  constructor
+  · rintro ⟨ic, h, rfl⟩; exact ⟨ic, h, rfl⟩
+  · rintro ⟨ic, h, rfl⟩; exact ⟨ic, h, rfl⟩
+
 /-- **delays ≥ 0**: the delay table built from a file without negative numbers is non-negative on every line, polarity
 pair and data set, whatever the tables -/
 theorem sdfDelay_nonneg (m : Mode) (pinLine : PinTable) (icLine : IcTable) (B : List RawCell) (h : rawNonneg B = true)
-    (d : Nat) : ∀ l ip op, 0 ≤ sdfDelay pinLine icLine (parse m B) d l ip op := by
+    (d : Nat) (del : Nat → Bool → Bool → Int) (hdel : sdfDelay pinLine icLine (parse m B) d = some del) :
+    ∀ l ip op, 0 ≤ del l ip op := by
+  obtain ⟨ic, hic, rfl⟩ := (sdfDelay_eq_some_iff _ _ _ _ _).mp hdel
   intro l ip op
   have h1 := iopaths_nonneg m pinLine B h d l ip op
-  have h2 := interconnects_nonneg m icLine B h d l ip op
+  have h2 := interconnects_nonneg m icLine B h ic hic d l ip op
   exact Int.add_nonneg h1 h2
 
 /-! ### lines that only one of the two loops can reach -/
 
 /-- no INTERCONNECT write goes to a line outside the range of the fork table -/
-theorem interconnects_zero_of_table (icLine : IcTable) (df : DelayFile) (l d : Nat) (ip op : Bool)
-    (h : ∀ c1 p1 c2 p2, icLine c1 p1 c2 p2 ≠ some l) : interconnects icLine df d l ip op = 0 := by
-  unfold interconnects
+theorem interconnects_zero_of_table (icLine : IcTable) (df : DelayFile) (ic : Arr)
+    (hic : interconnects icLine df = some ic) (l d : Nat) (ip op : Bool)
+    (h : ∀ c1 p1 c2 p2, icLine c1 p1 c2 p2 ≠ some l) : ic d l ip op = 0 := by
+  unfold interconnects at hic
+  obtain ⟨es, _, rfl⟩ := Option.map_eq_some_iff.mp hic
   apply applyAll_zero_of_not_covered
   intro w hw
-  unfold icWrites at hw
+  unfold icWritesOf at hw
   obtain ⟨e, _, hwe⟩ := List.mem_filterMap.mp hw
   unfold icWrite at hwe
   simp only at hwe
